@@ -8,6 +8,10 @@ THEOREMS = ['Pistache.ClientPool.Props.' + t for t in ('run_inv', 'own_response'
 
 def gen(tier, rnd):
     L = ['cl 1 2 1500 I,I,I,I,I,/,I,I,I,/,I,/,I,I,I,I', 'cl 1 1 1500 I,/,I,I,/,I', 'cl 2 3 1500 I,I,I,I,/,I,/,D200,I,I,I,I', 'cl 1 1 2500 D600:t300,I,I', 'cl 1 1 2500 D600:t300,D600:t300,I', 'cl 1 2 1500 N:t300,I,I', 'cl 1 1 2000 I,I,I,I', 'cl 2 3 3000 I,D500:t200,I,I,N:t300,K,B,I,I,I']
+    # the first requests of a fresh client issued by several application threads at once
+    for k in range(10 if tier == 'quick' else 80):
+        app = rnd.choice([2, 4, 4, 8]); m = rnd.choice([1, 2, 4, 4]); n = rnd.choice([app, app, 2 * app, 3 * app])
+        L.append('clp %d %d 6000 %d %s' % (rnd.choice([1, 2]), m, app, ','.join(rnd.choice(['I', 'I', 'I', 'D100']) for _ in range(n))))
     N = 24 if tier == 'quick' else 300
     for _ in range(N):
         threads = rnd.choice([1, 1, 2, 3]); m = rnd.choice([1, 1, 2, 3, 4]); n = rnd.choice([1, 2, 3, 5, 8, 12] if tier == 'quick' else [1, 2, 3, 5, 8, 12, 20, 40])
@@ -35,10 +39,10 @@ BAD = ('ASAN', 'UBSAN', 'HANG', 'CRASH', 'TERMINATE', 'MISSING', 'bad-op', 'serv
 def oracle(ln, out):
     """direct statement of C15"""
     if any(x in out for x in BAD): return ('crash', 'implementation aborted/hung: ' + out[:120])
-    w = ln.split(); m = int(w[2]); behs = [b for b in w[4].split(',') if b != '/']
-    mm = re.fullmatch(r'results=(\S+) peak=(\d+)', out)
+    w = ln.split(); m = int(w[2]); behs = [b for b in w[5 if w[0] == 'clp' else 4].split(',') if b != '/']
+    mm = re.fullmatch(r'results=(\S+) peak=(\d+|ok)', out)
     if not mm: return 'unexpected output ' + out[:100]
-    res = mm.group(1).split(','); peak = int(mm.group(2))
+    res = mm.group(1).split(','); peak = 0 if mm.group(2) == 'ok' else int(mm.group(2))
     if peak > m: return ('conn-limit', '%d simultaneous connections to the host with a limit of %d' % (peak, m))
     blocked = any(b.startswith('N') and ':t' not in b for b in behs) or any(b == 'X' for b in behs[:-1])
     for i, (b, r) in enumerate(zip(behs, res)):
@@ -59,9 +63,10 @@ def oracle(ln, out):
 
 def classify(ln, out):
     w = ln.split()
+    if w[0] == 'clp': return ('clp', w[1], w[2], w[4], len(w[5].split(',')), out.count('rej:'), out.count('pending'))
     return (w[1], w[2], tuple(b[0] + ('t' if ':t' in b else '') for b in w[4].split(',')), out.count('rej:'), out.count('pending'))
 
-RULE = ('1..4 successive batches (each issued when the previous one is settled) of 1..12 (thorough 40) requests issued at once through one real client (1..3 threads, connection limit 1..4) to a scripted raw server that answers each request by its tag: immediately, chunked, byte-dribbled, '
+RULE = ('1..4 successive batches (each issued when the previous one is settled) of 1..12 (thorough 40) requests issued at once through one real client (from one application thread; op clp: by 2..8 application threads released together on a fresh client) (1..3 threads, connection limit 1..4) to a scripted raw server that answers each request by its tag: immediately, chunked, byte-dribbled, '
         'delayed (before or after the client\'s time-out), never, or closing after the answer; each promise\'s outcome and settlement count and the peak number of connections open on the client side are compared with the '
         'model (pool dispatch + virtual-time schedule) and checked by a direct oracle. non-trivial = distinct (threads, limit, behaviour pattern, #rejected, #pending)')
 ASSUME = ['the server answers the requests of one connection in order (HTTP/1.1 without pipelining)', 'delays are kept 250 ms away from time-outs',
